@@ -7,6 +7,7 @@ import (
 	"io"
 	"net"
 	"sort"
+	"strconv"
 	"strings"
 	"sync"
 	"sync/atomic"
@@ -417,15 +418,15 @@ func connectBytes(a bAct) []byte {
 	// every accepted client logs in as "good" (only a selective authenticator looks at it) unless the
 	// form of the CONNECT says otherwise
 	switch {
-	case strings.HasSuffix(a.Form, "nouser"):
-	case strings.HasSuffix(a.Form, "emptyuser"):
+	case strings.Contains(a.Form, "nouser"):
+	case strings.Contains(a.Form, "emptyuser"):
 		flags |= 0x80
 		tail = append(tail, lp(nil)...)
-	case strings.HasSuffix(a.Form, "emptypass"):
+	case strings.Contains(a.Form, "emptypass"):
 		flags |= 0xc0
 		tail = append(tail, lp([]byte("good"))...)
 		tail = append(tail, lp(nil)...)
-	case strings.HasSuffix(a.Form, "userpass"):
+	case strings.Contains(a.Form, "userpass"):
 		flags |= 0xc0
 		tail = append(tail, lp([]byte("good"))...)
 		tail = append(tail, lp([]byte("pw"))...)
@@ -664,6 +665,23 @@ func runBehaviour(steps []bStep, auth string, maxqos int, res *Result) *brokerMi
 			werr := make(chan error, 1)
 			go func() {
 				cl.SetWriteDeadline(time.Now().Add(r.tmo))
+				// forms "...-cutN": the same bytes arrive in two segments, cut after N bytes (N < 0: from the end)
+				if i := strings.Index(a.Form, "cut"); i >= 0 {
+					n, _ := strconv.Atoi(a.Form[i+3:])
+					if n < 0 {
+						n += len(first)
+					}
+					if n > 0 && n < len(first) {
+						if _, err := cl.Write(first[:n]); err != nil {
+							werr <- err
+							return
+						}
+						time.Sleep(2 * time.Millisecond)
+						_, err := cl.Write(first[n:])
+						werr <- err
+						return
+					}
+				}
 				_, err := cl.Write(first)
 				werr <- err
 			}()
@@ -868,7 +886,12 @@ func runBehaviour(steps []bStep, auth string, maxqos int, res *Result) *brokerMi
 		}
 		// projection of the session store
 		if n := r.sp.Count(); n != st.Nsess {
-			return &brokerMismatch{fmt.Sprintf("%s %s: the session store holds %d sessions, specification %d", where, actDesc(a), n, st.Nsess), tagFor(a, nil, nil, a.C)}
+			// what is stored after a step is the session property's observable (after a refused CONNECT: C11's)
+			tag := "C10"
+			if a.A == "refuse" {
+				tag = "C11"
+			}
+			return &brokerMismatch{fmt.Sprintf("%s %s: the session store holds %d sessions, specification %d", where, actDesc(a), n, st.Nsess), tag}
 		}
 		// compare
 		var names []string
